@@ -319,6 +319,9 @@ func (f *Frame) specCall(st *State, e *ast.CallExpr, kind string) []*Term {
 			return []*Term{Select(Select(dom, tr), k)}
 		}
 		return []*Term{Select(Select(val, tr), k)}
+	case kind == "rpcFails":
+		h := c.heapGet(st, "G!rpcFails", ArrSort(SInt, SInt))
+		return []*Term{Select(h, IntLit(0))}
 	case kind == "lastRPCErr":
 		h := c.heapGet(st, "G!lastRPCErr", ArrSort(SInt, SIfc))
 		return []*Term{Select(h, IntLit(0))}
@@ -1131,7 +1134,7 @@ func (f *Frame) checkFrame(st *State, entry *State, ct *Contract, ri int, where 
 		if !ok {
 			old = c.heapInit(h)
 		}
-		if same(cur, old) || h == "ALLOC" || strings.HasPrefix(h, "IT!") || strings.HasPrefix(h, "HS!") || strings.HasPrefix(h, "TX!") || h == "G!lastNow" || h == "G!lastRPCErr" || h == "G!called" || h == "G!lasterr" || strings.HasPrefix(h, "TAR!") || strings.HasPrefix(h, "SC!") {
+		if same(cur, old) || h == "ALLOC" || strings.HasPrefix(h, "IT!") || strings.HasPrefix(h, "HS!") || strings.HasPrefix(h, "TX!") || h == "G!lastNow" || h == "G!lastRPCErr" || h == "G!rpcFails" || h == "G!called" || h == "G!lasterr" || strings.HasPrefix(h, "TAR!") || strings.HasPrefix(h, "SC!") {
 			continue
 		}
 		whole := false
